@@ -6,7 +6,8 @@
 //! fn: <pallas_network::miniprotocols::peersharing::Message as Encode/Decode>, <PeerAddress as Encode/Decode>
 //! fn: minicbor::Encoder over encode::write::Cursor<&mut [u8]>, minicbor::Decoder
 //! stub: std::fmt::format -> empty String
-//! outside: variants owning a HashMap version table (handshake Propose/QueryReply), the remaining handshake messages and the node-to-client protocols (localstate, localtxsubmission, txmonitor, localmsg*); vectors longer than 2 elements; byte strings longer than 3 bytes (1 byte inside the nested variants)
+//! outside: mixtures of CBOR head classes inside one message: all integer scalars of a message are symbolic within the same head class (1/2/3/5/9-byte encoding, clamped to the scalar's type); quick tier = widest class for every variant + all classes for keepalive and Point; thorough = all classes for one variant per scalar shape
+//! outside: variants owning a HashMap version table (handshake Propose/QueryReply) and the remaining handshake messages and the node-to-client protocols (localstate, localtxsubmission, txmonitor, localmsg*); vectors longer than 2 elements; byte strings longer than 3 bytes (1 byte inside the nested variants)
 //! outside: chainsync HeaderContent values that the type allows but the wire format cannot represent (variant 0 without byron prefix: encode returns Err; variant != 0 with a prefix: prefix is not written) -- "representable field combinations" in the property text
 //! assume: the well-formedness oracle is the hand-written walker in cborwf.rs (strict: declared container lengths must be met, reserved heads rejected); trusted, small, same file in both crates
 use crate::cborwf::walk;
@@ -17,6 +18,43 @@ use pallas_network::miniprotocols::{self as proto, Point};
 // ---------------------------------------------------------------------------------------------
 // builders: lengths concrete, contents symbolic
 // ---------------------------------------------------------------------------------------------
+/// CBOR head class of every integer scalar built below, concrete per harness: class k = encoding of 1, 2, 3, 5, 9 bytes
+/// (k = 0..4; a scalar whose type is too narrow for the class uses its own widest class). All values of the class are
+/// symbolic. (measured: with the head class symbolic every later offset is symbolic and a bare Point round trip costs
+/// 130-250 s instead of seconds.)
+static mut CLASS: u8 = 4;
+pub fn set_class(k: u8) {
+    unsafe { CLASS = k }
+}
+fn in_class(x: u64, k: u8) -> bool {
+    match k {
+        0 => x < 24,
+        1 => 24 <= x && x <= 0xff,
+        2 => 0xff < x && x <= 0xffff,
+        3 => 0xffff < x && x <= 0xffff_ffff,
+        _ => 0xffff_ffff < x,
+    }
+}
+pub fn any_u64() -> u64 {
+    let x: u64 = kani::any();
+    kani::assume(in_class(x, unsafe { CLASS }));
+    x
+}
+pub fn any_u32() -> u32 {
+    let x: u32 = kani::any();
+    kani::assume(in_class(x as u64, unsafe { CLASS }.min(3)));
+    x
+}
+pub fn any_u16() -> u16 {
+    let x: u16 = kani::any();
+    kani::assume(in_class(x as u64, unsafe { CLASS }.min(2)));
+    x
+}
+pub fn any_u8() -> u8 {
+    let x: u8 = kani::any();
+    kani::assume(in_class(x as u64, unsafe { CLASS }.min(1)));
+    x
+}
 pub fn bytes_n(n: usize) -> Vec<u8> {
     match n {
         0 => Vec::new(),
@@ -47,7 +85,7 @@ pub fn point_k(k: u8, h: usize) -> Point {
     if k == 0 {
         Point::Origin
     } else {
-        Point::Specific(kani::any(), bytes_n(h))
+        Point::Specific(any_u64(), bytes_n(h))
     }
 }
 
@@ -72,10 +110,14 @@ pub fn encode_into<T: pallas_codec::minicbor::Encode<()>>(x: &T, buf: &mut [u8])
 /// `$n` = buffer size, `$steps` = upper bound on the number of CBOR heads of the encoding (walker bound).
 macro_rules! roundtrip {
     ($name:ident, $t:ty, $n:expr, $steps:expr, $unw:expr, $mk:expr, $eq:path) => {
+        roundtrip!($name, $t, $n, $steps, $unw, $mk, $eq, 4);
+    };
+    ($name:ident, $t:ty, $n:expr, $steps:expr, $unw:expr, $mk:expr, $eq:path, $class:expr) => {
         #[kani::proof]
         #[kani::unwind($unw)]
         #[kani::stub(std::fmt::format, crate::stubs::fmt_format_stub)]
         fn $name() {
+            set_class($class);
             let msg: $t = $mk;
             let mut buf = [0u8; $n];
             let (enc_ok, len) = encode_into(&msg, &mut buf[..]);
@@ -116,9 +158,9 @@ pub mod ka {
         }
     }
 }
-// bound: keepalive, variant concrete, cookie any u16; 8-byte buffer, walker <= 4 heads; unwind 10
-roundtrip!(c22_q_ka_keepalive, ka::Message, 8, 4, 10, ka::Message::KeepAlive(kani::any()), ka::eq);
-roundtrip!(c22_q_ka_response, ka::Message, 8, 4, 10, ka::Message::ResponseKeepAlive(kani::any()), ka::eq);
+// bound: keepalive, variant concrete, cookie any u16 of the 3-byte head class; 8-byte buffer, walker <= 4 heads; unwind 10
+roundtrip!(c22_q_ka_keepalive, ka::Message, 8, 4, 10, ka::Message::KeepAlive(any_u16()), ka::eq);
+roundtrip!(c22_q_ka_response, ka::Message, 8, 4, 10, ka::Message::ResponseKeepAlive(any_u16()), ka::eq);
 roundtrip!(c22_q_ka_done, ka::Message, 8, 4, 10, ka::Message::Done, ka::eq);
 
 // ---------------------------------------------------------------------------------------------
@@ -167,7 +209,7 @@ pub mod cs {
     pub type Message = proto::chainsync::Message<HeaderContent>;
 
     pub fn tip_k(k: u8, h: usize) -> Tip {
-        Tip(point_k(k, h), kani::any())
+        Tip(point_k(k, h), any_u64())
     }
     pub fn eq_tip(a: &Tip, b: &Tip) -> bool {
         eq_point(&a.0, &b.0) && a.1 == b.1
@@ -175,9 +217,9 @@ pub mod cs {
     /// representable header contents: byron (variant 0 with prefix) or later eras (variant != 0, no prefix)
     pub fn content(byron: bool, n: usize) -> HeaderContent {
         if byron {
-            HeaderContent { variant: 0, byron_prefix: Some((kani::any(), kani::any())), cbor: bytes_n(n) }
+            HeaderContent { variant: 0, byron_prefix: Some((any_u8(), any_u64())), cbor: bytes_n(n) }
         } else {
-            let v: u8 = kani::any();
+            let v: u8 = any_u8();
             kani::assume(v != 0);
             HeaderContent { variant: v, byron_prefix: None, cbor: bytes_n(n) }
         }
@@ -244,13 +286,13 @@ pub mod tx {
     pub type Message = proto::txsubmission::Message<EraTxId, EraTxBody>;
 
     pub fn id(n: usize) -> EraTxId {
-        EraTxId(kani::any(), bytes_n(n))
+        EraTxId(any_u16(), bytes_n(n))
     }
     pub fn eq_id(a: &EraTxId, b: &EraTxId) -> bool {
         a.0 == b.0 && eq_bytes(&a.1, &b.1)
     }
     pub fn body(n: usize) -> EraTxBody {
-        EraTxBody(kani::any(), bytes_n(n))
+        EraTxBody(any_u16(), bytes_n(n))
     }
     pub fn eq_body(a: &EraTxBody, b: &EraTxBody) -> bool {
         a.0 == b.0 && eq_bytes(&a.1, &b.1)
@@ -265,8 +307,8 @@ pub mod tx {
     pub fn idsizes(n: usize) -> Vec<TxIdAndSize<EraTxId>> {
         match n {
             0 => Vec::new(),
-            1 => vec![TxIdAndSize(id(1), kani::any())],
-            _ => vec![TxIdAndSize(id(1), kani::any()), TxIdAndSize(id(0), kani::any())],
+            1 => vec![TxIdAndSize(id(1), any_u32())],
+            _ => vec![TxIdAndSize(id(1), any_u32()), TxIdAndSize(id(0), any_u32())],
         }
     }
     pub fn bodies(n: usize) -> Vec<EraTxBody> {
@@ -329,7 +371,7 @@ pub mod tx {
 }
 // bound: txsubmission, variant concrete; blocking flag / counts / eras / sizes symbolic; lists of 0, 1, 2 elements; tx ids and bodies 0..1 byte; 40-byte buffer, walker <= 16 heads; unwind 18
 roundtrip!(c22_q_tx_init, tx::Message, 40, 16, 18, tx::Message::Init, tx::eq);
-roundtrip!(c22_q_tx_requesttxids, tx::Message, 40, 16, 18, tx::Message::RequestTxIds(kani::any(), kani::any(), kani::any()), tx::eq);
+roundtrip!(c22_q_tx_requesttxids, tx::Message, 40, 16, 18, tx::Message::RequestTxIds(kani::any(), any_u16(), any_u16()), tx::eq);
 roundtrip!(c22_q_tx_replytxids0, tx::Message, 40, 16, 18, tx::Message::ReplyTxIds(tx::idsizes(0)), tx::eq);
 roundtrip!(c22_q_tx_replytxids1, tx::Message, 40, 16, 18, tx::Message::ReplyTxIds(tx::idsizes(1)), tx::eq);
 roundtrip!(c22_q_tx_replytxids2, tx::Message, 40, 16, 18, tx::Message::ReplyTxIds(tx::idsizes(2)), tx::eq);
@@ -349,11 +391,18 @@ pub mod ps {
     pub use proto::peersharing::{Message, PeerAddress};
     use std::net::{Ipv4Addr, Ipv6Addr};
 
+    /// four 32-bit words, each in the head class of the harness
+    pub fn any_v6_bits() -> u128 {
+        ((any_u32() as u128) << 96) | ((any_u32() as u128) << 64) | ((any_u32() as u128) << 32) | (any_u32() as u128)
+    }
+    pub fn any_port() -> u32 {
+        any_u32()
+    }
     pub fn v4() -> PeerAddress {
-        PeerAddress::V4(Ipv4Addr::from_bits(kani::any()), kani::any())
+        PeerAddress::V4(Ipv4Addr::from_bits(any_u32()), any_port())
     }
     pub fn v6() -> PeerAddress {
-        PeerAddress::V6(Ipv6Addr::from_bits(kani::any()), kani::any())
+        PeerAddress::V6(Ipv6Addr::from_bits(any_v6_bits()), any_port())
     }
     pub fn eq_addr(a: &PeerAddress, b: &PeerAddress) -> bool {
         match (a, b) {
@@ -385,7 +434,7 @@ pub mod ps {
     }
 }
 // bound: peersharing, variant concrete; amount any u8; SharePeers with 0 / 1 / 2 IPv4 peers, every address and port; 40-byte buffer, walker <= 12 heads; unwind 14
-roundtrip!(c22_q_ps_sharerequest, ps::Message, 40, 12, 14, ps::Message::ShareRequest(kani::any()), ps::eq);
+roundtrip!(c22_q_ps_sharerequest, ps::Message, 40, 12, 14, ps::Message::ShareRequest(any_u8()), ps::eq);
 roundtrip!(c22_q_ps_sharepeers0, ps::Message, 40, 12, 14, ps::Message::SharePeers(Vec::new()), ps::eq);
 roundtrip!(c22_q_ps_sharepeers1_v4, ps::Message, 40, 12, 14, ps::Message::SharePeers(vec![ps::v4()]), ps::eq);
 roundtrip!(c22_q_ps_sharepeers2_v4, ps::Message, 40, 12, 14, ps::Message::SharePeers(vec![ps::v4(), ps::v4()]), ps::eq);
@@ -396,11 +445,49 @@ roundtrip!(c22_q_ps_addr_v4, ps::PeerAddress, 40, 12, 14, ps::v4(), ps::eq_addr)
 roundtrip!(c22_q_ps_addr_v6, ps::PeerAddress, 40, 12, 14, ps::v6(), ps::eq_addr);
 roundtrip!(c22_q_ps_sharepeers1_v6, ps::Message, 40, 12, 14, ps::Message::SharePeers(vec![ps::v6()]), ps::eq);
 
+// bound: head-class sweep (classes 0..3 = 1, 2, 3, 5-byte integer encodings; class 4 is the default of every harness above): keepalive cookie, Point slot; unwind 10
+roundtrip!(c22_q_ka_keepalive_k0, ka::Message, 8, 4, 10, ka::Message::KeepAlive(any_u16()), ka::eq, 0);
+roundtrip!(c22_q_ka_keepalive_k1, ka::Message, 8, 4, 10, ka::Message::KeepAlive(any_u16()), ka::eq, 1);
+roundtrip!(c22_q_point_specific3_k0, Point, 16, 4, 10, point_k(1, 3), eq_point, 0);
+roundtrip!(c22_q_point_specific3_k1, Point, 16, 4, 10, point_k(1, 3), eq_point, 1);
+roundtrip!(c22_q_point_specific3_k2, Point, 16, 4, 10, point_k(1, 3), eq_point, 2);
+roundtrip!(c22_q_point_specific3_k3, Point, 16, 4, 10, point_k(1, 3), eq_point, 3);
+
+// bound: head-class sweep (classes 0..3) for one variant per scalar shape: blockfetch RequestRange, chainsync RollForward(byron) / RollBackward, txsubmission RequestTxIds / ReplyTxIds(1), peersharing ShareRequest / SharePeers(1 IPv4); buffers and walker bounds as in the class-4 harness of the same variant
+roundtrip!(c22_t_bf_range_ss_k0, bf::Message, 32, 10, 12, bf::Message::RequestRange { range: (point_k(1, 1), point_k(1, 1)) }, bf::eq, 0);
+roundtrip!(c22_t_bf_range_ss_k1, bf::Message, 32, 10, 12, bf::Message::RequestRange { range: (point_k(1, 1), point_k(1, 1)) }, bf::eq, 1);
+roundtrip!(c22_t_bf_range_ss_k2, bf::Message, 32, 10, 12, bf::Message::RequestRange { range: (point_k(1, 1), point_k(1, 1)) }, bf::eq, 2);
+roundtrip!(c22_t_bf_range_ss_k3, bf::Message, 32, 10, 12, bf::Message::RequestRange { range: (point_k(1, 1), point_k(1, 1)) }, bf::eq, 3);
+roundtrip!(c22_t_cs_rollforward_byron_k0, cs::Message, 48, 16, 18, cs::Message::RollForward(cs::content(true, 1), cs::tip_k(1, 0)), cs::eq, 0);
+roundtrip!(c22_t_cs_rollforward_byron_k1, cs::Message, 48, 16, 18, cs::Message::RollForward(cs::content(true, 1), cs::tip_k(1, 0)), cs::eq, 1);
+roundtrip!(c22_t_cs_rollforward_byron_k2, cs::Message, 48, 16, 18, cs::Message::RollForward(cs::content(true, 1), cs::tip_k(1, 0)), cs::eq, 2);
+roundtrip!(c22_t_cs_rollforward_byron_k3, cs::Message, 48, 16, 18, cs::Message::RollForward(cs::content(true, 1), cs::tip_k(1, 0)), cs::eq, 3);
+roundtrip!(c22_t_cs_rollbackward_k0, cs::Message, 48, 16, 18, cs::Message::RollBackward(point_k(1, 1), cs::tip_k(1, 1)), cs::eq, 0);
+roundtrip!(c22_t_cs_rollbackward_k1, cs::Message, 48, 16, 18, cs::Message::RollBackward(point_k(1, 1), cs::tip_k(1, 1)), cs::eq, 1);
+roundtrip!(c22_t_cs_rollbackward_k2, cs::Message, 48, 16, 18, cs::Message::RollBackward(point_k(1, 1), cs::tip_k(1, 1)), cs::eq, 2);
+roundtrip!(c22_t_cs_rollbackward_k3, cs::Message, 48, 16, 18, cs::Message::RollBackward(point_k(1, 1), cs::tip_k(1, 1)), cs::eq, 3);
+roundtrip!(c22_t_tx_requesttxids_k0, tx::Message, 40, 16, 18, tx::Message::RequestTxIds(kani::any(), any_u16(), any_u16()), tx::eq, 0);
+roundtrip!(c22_t_tx_requesttxids_k1, tx::Message, 40, 16, 18, tx::Message::RequestTxIds(kani::any(), any_u16(), any_u16()), tx::eq, 1);
+roundtrip!(c22_t_tx_requesttxids_k2, tx::Message, 40, 16, 18, tx::Message::RequestTxIds(kani::any(), any_u16(), any_u16()), tx::eq, 2);
+roundtrip!(c22_t_tx_requesttxids_k3, tx::Message, 40, 16, 18, tx::Message::RequestTxIds(kani::any(), any_u16(), any_u16()), tx::eq, 3);
+roundtrip!(c22_t_tx_replytxids1_k0, tx::Message, 40, 16, 18, tx::Message::ReplyTxIds(tx::idsizes(1)), tx::eq, 0);
+roundtrip!(c22_t_tx_replytxids1_k1, tx::Message, 40, 16, 18, tx::Message::ReplyTxIds(tx::idsizes(1)), tx::eq, 1);
+roundtrip!(c22_t_tx_replytxids1_k2, tx::Message, 40, 16, 18, tx::Message::ReplyTxIds(tx::idsizes(1)), tx::eq, 2);
+roundtrip!(c22_t_tx_replytxids1_k3, tx::Message, 40, 16, 18, tx::Message::ReplyTxIds(tx::idsizes(1)), tx::eq, 3);
+roundtrip!(c22_t_ps_sharerequest_k0, ps::Message, 40, 12, 14, ps::Message::ShareRequest(any_u8()), ps::eq, 0);
+roundtrip!(c22_t_ps_sharerequest_k1, ps::Message, 40, 12, 14, ps::Message::ShareRequest(any_u8()), ps::eq, 1);
+roundtrip!(c22_t_ps_sharerequest_k2, ps::Message, 40, 12, 14, ps::Message::ShareRequest(any_u8()), ps::eq, 2);
+roundtrip!(c22_t_ps_sharerequest_k3, ps::Message, 40, 12, 14, ps::Message::ShareRequest(any_u8()), ps::eq, 3);
+roundtrip!(c22_t_ps_sharepeers1_v4_k0, ps::Message, 40, 12, 14, ps::Message::SharePeers(vec![ps::v4()]), ps::eq, 0);
+roundtrip!(c22_t_ps_sharepeers1_v4_k1, ps::Message, 40, 12, 14, ps::Message::SharePeers(vec![ps::v4()]), ps::eq, 1);
+roundtrip!(c22_t_ps_sharepeers1_v4_k2, ps::Message, 40, 12, 14, ps::Message::SharePeers(vec![ps::v4()]), ps::eq, 2);
+roundtrip!(c22_t_ps_sharepeers1_v4_k3, ps::Message, 40, 12, 14, ps::Message::SharePeers(vec![ps::v4()]), ps::eq, 3);
+
 /// vacuity twin: must come back FAILED
 #[kani::proof]
 #[kani::unwind(10)]
 fn c22_v_twin() {
-    let msg = ka::Message::KeepAlive(kani::any());
+    let msg = ka::Message::KeepAlive(any_u16());
     let mut buf = [0u8; 8];
     let (_ok, len) = encode_into(&msg, &mut buf[..]);
     let w = walk(&buf, len, 4);
